@@ -43,4 +43,7 @@ OddVanish == done /\ case.kind = "integrate" =>
 DerivLinear == done /\ case.kind = "derive" =>
     DerivB(case.a, case.c, case.d, case.b + 1, case.x) - case.db = 2 * case.a
 EmitInv == done => PrintT(ToJson(case))
+\* Next to draws: a draw variable whose series is constantly 1 is a constant factor; the derivative taken below or
+\* above the Monte-Carlo operator of (formula x that draw) is the derivative of the formula (replayed by checks/c10.py:
+\* the element a Derive NAMES keeps its meaning when the formula also contains draws).
 =============================================================================
